@@ -341,6 +341,41 @@ func mixedKindSelections(rng *rand.Rand, sample int) []refScenario {
 	return out
 }
 
+// prefixSymbolScenarios: reference groups whose symbols are prefixes of one another AS STRINGS without being
+// ancestors (rel / release, a.b / a.bc, o / other-like, tags / tags-old), in both configuration orders, with the
+// shorter-named group empty, sparse or as full as the longer-named one.
+func prefixSymbolScenarios() []refScenario {
+	pairs := [][2][2]string{ // {symbol, include prefix}
+		{{"rel", "refs/rel"}, {"release", "refs/heads/release"}},
+		{{"a.b", "refs/ab"}, {"a.bc", "refs/abc"}},
+		{{"o", "refs/o"}, {"oth", "refs/heads/oth"}},
+		{{"tags-old", "refs/tags-old"}, {"tags-older", "refs/heads/older"}},
+		{{"p.q", "refs/pq"}, {"p.q-r.s", "refs/pqrs"}},
+	}
+	var out []refScenario
+	n := 0
+	for _, pr := range pairs {
+		for _, order := range [][2]int{{0, 1}, {1, 0}} {
+			for _, fill := range []string{"first-empty", "first-one", "both"} {
+				n++
+				refs := []string{"refs/heads/main", "refs/tags/v1", pr[1][1] + "/x", pr[1][1] + "/y"}
+				if fill != "first-empty" {
+					refs = append(refs, pr[0][1]+"/x")
+				}
+				if fill == "both" {
+					refs = append(refs, pr[0][1]+"/y")
+				}
+				sc := refScenario{ID: fmt.Sprintf("ps%d", n), Class: "prefix-symbols", Refs: conflictFree(refs)}
+				for _, k := range order {
+					sc.Config = append(sc.Config, cfgEntry{Scope: "local", Section: "refgroup", Sub: pr[k][0], Key: "include", Value: sp(pr[k][1])})
+				}
+				out = append(out, sc)
+			}
+		}
+	}
+	return out
+}
+
 // forestScenarios: refgroup forests over p, p.x, p.y, p.x.z where every group has no rules, an include,
 // or an include plus an exclude, so that rule-less parents with several matching subgroups, nested
 // rule-less groups and Other buckets all occur; optionally selected through @group options.
@@ -504,9 +539,11 @@ func checkC07(c *Ctx) {
 	if quick(c) {
 		scs = append(scs, forestScenarios(rng, 40)...)
 		scs = append(scs, builtinBoundaryScenarios()...)
+		scs = append(scs, prefixSymbolScenarios()...)
 	} else {
 		scs = append(scs, forestScenarios(rng, 1000)...)
 		scs = append(scs, builtinBoundaryScenarios()...)
+		scs = append(scs, prefixSymbolScenarios()...)
 	}
 	// however deeply nested: chains of 1..24 groups
 	for d := 1; d <= 24; d++ {
